@@ -8,7 +8,7 @@ from fractions import Fraction as F
 import numpy as np
 
 from ..common import seed_rng
-from ..meshgen import INITIAL_GRIDS, THETAS, Batch, random_op, op_json, random_indicators
+from ..meshgen import INITIAL_GRIDS, THETAS, Batch, random_op, op_json, random_indicators, near_miss_indicators
 from ..meshlib import PyMesh
 from .. import refmesh
 
@@ -234,6 +234,11 @@ def search(res, tier, boost=False):
             kind = rng.choice(['diso', 'daniso'])
             eta = random_indicators(rng, len(pm.mesh.leaf_elements), aniso=(kind == 'daniso'))
             theta = float(rng.choice(THETAS))
+            if rng.random() < 0.25:
+                nm = near_miss_indicators(rng, len(pm.mesh.leaf_elements), theta, aniso=(kind == 'daniso'))
+                if nm is not None:
+                    eta = nm
+                    res.bump('near_miss_indicator_vectors')
             ops.append((kind, eta, theta))
             hist = dict(glue=glue, X=[str(x) for x in X], T=[str(t) for t in T], ops=[op_json(o) for o in ops])
             if not check_marking(res, pm, kind, eta, theta, glue, X, hist):
